@@ -569,6 +569,16 @@ def run_check(ctx, prop):
                                          profile="growone", steps=250, allow1=True, tracecfg="ZRaftTrace_growone.cfg"),
                   ctx.seed * 1000 + 900 + k) for k in range(2 if quick else 8)]
             conformance(ctx, zr, prop, g, stats, samples, par=2 if quick else 6)
+        if prop == "C01":
+            # a vote request at a replica that is a learner in its own applied configuration (scenarioLearnerVote,
+            # once per named learner, up front: promotion applied by the voters while the learner is cut off,
+            # campaign, delivery).  Rule (HandleVoteReq): a learner answers nothing.  In the random corpus the
+            # scenario depends on the nemesis' dice (it got lost at seed 1 when reads were added to every run).
+            lv0 = [("learner-vote-%d" % k, dict(n=5, voters=[1, 2, 3], learners=[4, 5], prevote=(k % 2 == 1), cq=(k % 4 >= 2),
+                                               maxsz=1 << 20, maxcsz=0, storage=["memory", "rocks-mem"][(k // 2) % 2],
+                                               profile="learnervote", steps=100),
+                    ctx.seed * 1000 + 970 + k) for k in range(2 if quick else 6)]
+            conformance(ctx, zr, prop, lv0, stats, samples, par=2 if quick else 6)
         if prop in ("C01", "C03"):
             # power loss right after a vote was answered, then a second candidate of the same term
             # (scenarioLostVote, both variants per run: vote written with / without a term change).  The
